@@ -41,6 +41,11 @@ Definition gen_init_agent (t : task) (d : dir) (w : (option (list W))) (position
 Definition gen_fitness (value : F) (task_type : dir) : F :=
   let value_v1 := (if (dir_eqb task_type MIN) then value else (fopp value)) in
   (if (fleb fzero value_v1) then (fdiv fone (fadd value_v1 fone)) else (fadd fone (fabs value_v1))).
+
+Definition gen_task_validate_weights (weights : (option (list xnum))) : (option unit) :=
+  if (negb (is_some weights)) then (Some tt) else
+  if (negb (forallb (fun w_ => xleb (XFin 0) w_) (opt_list weights))) then None else
+  (Some tt).
 End Gen.
 
 Definition gen_task_correct_solution_mutates_param : bool := false.
@@ -49,3 +54,4 @@ Definition gen_task_initial_solution_mutates_param : bool := false.
 Definition gen_fcn_mutates_param : bool := false.
 Definition gen_init_agent_mutates_param : bool := false.
 Definition gen_fitness_mutates_param : bool := false.
+Definition gen_task_validate_weights_mutates_param : bool := false.
